@@ -158,7 +158,7 @@ theorem absOkS_of_absOk (s : Schema) (q : Query) (o : Options) (ty : TypeId) (su
     (hv : vSels s o true sub = true) (hok : absOk s o ty sub = true) : absOkS s q o ty sub = true := by
   obtain ⟨_, _, _, _, _, _, hnd, _⟩ := absOk_parts hok
   have hns := no_spread_of_vSels hv
-  simp only [absOkS, hok, Bool.true_and, Bool.and_eq_true, List.all_eq_true]
+  simp only [absOkS, absOk2_of_absOk hok, Bool.true_and, Bool.and_eq_true, List.all_eq_true]
   constructor
   · intro x hx
     cases x with
